@@ -6,10 +6,11 @@
    Part 2: canonical token lists and the lexer theorem  html_lex (print ts) = Some ts.
    Part 3: lexable events give canonical tokens; safe events are lexable.
    Part 4: tok_nest / tok_safe / drop_sp_attr over toks_of.
-   Part 5: a lexability theorem for the renderer's events beyond the safe case. *)
+   Part 5: a lexability theorem for the renderer's events beyond the safe case.
+   Part 6: the byte-level statements about `html` (C02, C10, C18). *)
 From Coq Require Import List NArith Bool Lia Strings.String.
 From V Require Import Base.Bytes Base.Res Gen.Scanners Model.Escape Model.Ast Model.Html
-  Spec.EscapeSpec Spec.HtmlSpec Proofs.EscapeProofs Proofs.HtmlSafe Proofs.HtmlSp.
+  Spec.EscapeSpec Spec.HtmlSpec Spec.Shape Proofs.EscapeProofs Proofs.HtmlSafe Proofs.HtmlNest Proofs.HtmlSp.
 Import ListNotations.
 Local Open Scope string_scope.
 Local Open Scope list_scope.
@@ -1285,4 +1286,99 @@ Proof.
     destruct C as [C|[C|C]]; [left; exact C | right; left; exact C | right; right].
     cbn [no_html_nodes] in C. apply andb_true_iff in C. destruct C as [_ C].
     rewrite forallb_forall in C. exact (C x Hx).
+Qed.
+
+(* ------------------------------------------------------------------ Part 6 *)
+(* the byte-level statements about the renderer model *)
+Lemma html_events slug o t b :
+  html slug o t = Ok b -> exists evs, events slug o t = Ok evs /\ b = ser evs.
+Proof.
+  unfold html. destruct (events slug o t) as [evs| |]; cbn [bind]; intro H; try discriminate H.
+  injection H as <-. exists evs. split; reflexivity.
+Qed.
+
+Lemma c02_bytes slug o t b :
+  o_unsafe o = false -> s7 t = true -> s4 t = true ->
+  (forall h, forallb inert_byte (slug h) = true) ->
+  html slug o t = Ok b -> html_safe_check b = 0%N.
+Proof.
+  intros U H7 H4 SL H. destruct (html_events _ _ _ _ H) as (evs & E & ->).
+  apply safe_check_ser. exact (c02_events slug o t evs U H7 H4 SL E).
+Qed.
+
+Lemma c10_bytes_lexable slug o t b :
+  s2 t = true -> s3 t = true -> s6w t = true ->
+  (forall evs, events slug o t = Ok evs -> lexable evs = true) ->
+  html slug o t = Ok b -> html_balanced_check b = 0%N.
+Proof.
+  intros H2 H3 H6 L H. destruct (html_events _ _ _ _ H) as (evs & E & ->).
+  apply balanced_check_ser; [exact (L evs E) | exact (nested_weak slug o t evs H2 H3 H6 E)].
+Qed.
+
+Lemma c10_bytes slug o t b :
+  s2 t = true -> s3 t = true -> s6w t = true ->
+  (forall h, forallb no_active_byte (slug h) = true) -> lits_notlt t = true ->
+  (o_unsafe o = false \/ o_escape o = true \/ no_html_nodes t = true) ->
+  html slug o t = Ok b -> html_balanced_check b = 0%N.
+Proof.
+  intros H2 H3 H6 SL LN C H. apply (c10_bytes_lexable slug o t b H2 H3 H6); [|exact H].
+  intros evs E. exact (proj1 (events_lexable slug o t evs SL (raw_ok_intro o t LN C) E)).
+Qed.
+
+Lemma s7_lits_notlt : forall t, s7 t = true -> lits_notlt t = true.
+Proof.
+  induction t as [v sp ch IH] using node_ind2. cbn [s7 lits_notlt]. intro H.
+  apply andb_true_iff in H. destruct H as [Hv Hc]. apply andb_true_iff. split.
+  - destruct v; try reflexivity; try discriminate Hv. apply inert_notlt_l, Hv.
+  - rewrite forallb_forall in *. rewrite Forall_forall in IH. intros x Hx. exact (IH x Hx (Hc x Hx)).
+Qed.
+
+Lemma inert_slug_no_active (slug : bytes -> bytes) :
+  (forall h, forallb inert_byte (slug h) = true) -> forall h, forallb no_active_byte (slug h) = true.
+Proof. intros H h. apply inert_no_active_l, H. Qed.
+
+Lemma c18_bytes_events slug o t evs :
+  events slug (set_sp true o) t = Ok evs -> lexable evs = true -> no_own_sp evs = true ->
+  html slug (set_sp true o) t = Ok (ser evs) /\
+  html slug (set_sp false o) t = Ok (ser (map erase_sp evs)) /\
+  strip_sourcepos (ser evs) = Some (ser (map erase_sp evs)).
+Proof.
+  intros E L N. split; [|split].
+  - unfold html. rewrite E. reflexivity.
+  - rewrite html_sp_bytes, E. reflexivity.
+  - exact (strip_sourcepos_ser evs L N).
+Qed.
+
+Lemma c18_bytes slug o t on :
+  (forall h, forallb no_active_byte (slug h) = true) -> lits_notlt t = true ->
+  (o_unsafe o = false \/ o_escape o = true \/ no_html_nodes t = true) ->
+  html slug (set_sp true o) t = Ok on ->
+  exists off, html slug (set_sp false o) t = Ok off /\ strip_sourcepos on = Some off /\
+              relex_identity on = true /\ relex_identity off = true.
+Proof.
+  intros SL LN C H. destruct (html_events _ _ _ _ H) as (evs & E & ->).
+  assert (raw_ok (set_sp true o) t = true) as R by (apply raw_ok_intro; [exact LN | exact C]).
+  destruct (events_lexable slug _ t evs SL R E) as [L N].
+  destruct (c18_bytes_events slug o t evs E L N) as (_ & B & S).
+  exists (ser (map erase_sp evs)). repeat split; try assumption.
+  - apply relex_identity_ser, L.
+  - apply relex_identity_ser.
+    assert (raw_ok (set_sp false o) t = true) as R' by (apply raw_ok_intro; [exact LN | exact C]).
+    refine (proj1 (events_lexable slug (set_sp false o) t _ SL R' _)).
+    rewrite html_sp_events, E. reflexivity.
+Qed.
+
+(* without the clause on raw HTML the byte-level balance statement is false: passed-through bytes
+   are lexed as tags *)
+Definition o_unsafe_plain : opts :=
+  mkOpts false None false false false false false false false 0 true false 45 false false false false false false 0 false false.
+Definition raw_div_tree : node :=
+  Node Document (mkSp 1 1 1 5) [Node (HtmlBlock 6 (B "<div>")) (mkSp 1 1 1 5) []].
+
+Lemma c10_bytes_without_raw_clause_refuted :
+  ~ (forall slug o t b, s2 t = true -> s3 t = true -> s6w t = true ->
+       html slug o t = Ok b -> html_balanced_check b = 0%N).
+Proof.
+  intro H. specialize (H (fun b => b) o_unsafe_plain raw_div_tree _ eq_refl eq_refl eq_refl eq_refl).
+  vm_compute in H. discriminate H.
 Qed.
